@@ -1,9 +1,12 @@
 //@unit U15.7 props=C15,C11,C10,C20 tier=quick
 //@source name=fixed kind=expanded crate=font-types
+//@source name=fvar kind=file path=read-fonts/src/tables/fvar.rs
 // Fixed::div and Fixed::mul_div (and the F26Dot6 instances of the same macro body): the result is the
 // exactly computed quotient rounded to nearest, ties away from zero, whenever it is representable;
 // division by zero saturates to +-0x7FFFFFFF. Bodies are copied from rustc's expansion of font-types.
 use vstd::prelude::*;
+use vstd::std_specs::cmp::*;
+use core::cmp::Ordering;
 verus! {
 
 // q is n/d rounded to nearest, ties away from zero (n >= 0, d > 0), stated without division
@@ -19,14 +22,57 @@ pub assume_specification [i32::wrapping_neg] (x: i32) -> (r: i32)
     ensures r == wneg(x);
 
 
+
+// (n + d/2) / d is n/d rounded half away from zero (n >= 0, d > 0)
+pub proof fn lemma_round_div(n: int, d: int)
+    requires n >= 0, d > 0
+    ensures
+        is_rha_nonneg(n, d, (n + d / 2) / d),
+        (n + d / 2) / d >= 0,
+        representable(n, d) ==> (n + d / 2) / d < 0x80000000,
+{
+    let x = n + d / 2;
+    let q = x / d;
+    assert(x == d * q + x % d && 0 <= x % d < d) by(nonlinear_arith) requires d > 0, q == x / d;
+    assert(2 * q * d <= 2 * n + d && 2 * n + d < 2 * (q + 1) * d) by(nonlinear_arith)
+        requires x == d * q + x % d, 0 <= x % d < d, x == n + d / 2, d > 0;
+    assert(representable(n, d) ==> q < 0x80000000) by(nonlinear_arith)
+        requires 2 * q * d <= 2 * n + d, d > 0;
+    assert(q >= 0) by(nonlinear_arith) requires 2 * n + d < 2 * (q + 1) * d, n >= 0, d > 0;
+}
+pub proof fn lemma_div_corollaries(a: int, d: int)
+    requires a >= 0, d > 0
+    ensures
+        a <= d ==> (a * 65536 + d / 2) / d <= 65536 && representable(a * 65536, d),
+        a == d ==> (a * 65536 + d / 2) / d == 65536,
+        a == 0 ==> (a * 65536 + d / 2) / d == 0,
+{
+    let n = a * 65536;
+    let q = (n + d / 2) / d;
+    lemma_round_div(n, d);
+    assert(a <= d ==> q <= 65536 && representable(n, d)) by(nonlinear_arith)
+        requires 2 * q * d <= 2 * n + d, n == a * 65536, d > 0, a >= 0;
+    assert(a == d ==> q == 65536) by(nonlinear_arith)
+        requires 2 * q * d <= 2 * n + d, 2 * n + d < 2 * (q + 1) * d, n == a * 65536, d > 0;
+    assert(a == 0 ==> q == 0) by(nonlinear_arith)
+        requires 2 * q * d <= 2 * n + d, 2 * n + d < 2 * (q + 1) * d, n == a * 65536, d > 0, q >= 0;
+}
+
 //@require source=fixed seq="pub struct Fixed(i32);"
+#[derive(Copy, Clone)]
 pub struct Fixed(pub i32);
 //@require source=fixed seq="pub struct F26Dot6(i32);"
+#[derive(Copy, Clone)]
 pub struct F26Dot6(pub i32);
 
-impl Fixed {
+impl vstd::std_specs::ops::DivSpecImpl<Fixed> for Fixed {
+    open spec fn obeys_div_spec() -> bool { false }
+    open spec fn div_req(self, rhs: Fixed) -> bool { true } // no precondition
+    uninterp spec fn div_spec(self, rhs: Fixed) -> Fixed;
+}
+impl core::ops::Div for Fixed {
+    type Output = Self;
 //@extract source=fixed container="mod fixed||impl Div for Fixed" fn=div ret=r
-//@rewrite "Self::Output" => "Self"
 //@spec
         // no precondition: total and overflow-free for every pair of operands (incl. i32::MIN)
         ensures
@@ -57,25 +103,12 @@ impl Fixed {
                 proof {
                     assert(a << 16 == a * 65536) by(bit_vector) requires a <= 0x80000000u64;
                     assert(b >> 1 == b / 2) by(bit_vector);
-                    let n = a as int * 65536;
-                    let bi = b as int;
-                    let x = n + bi / 2;
-                    let qi = x / bi;
-                    assert(x == bi * qi + x % bi && 0 <= x % bi < bi) by(nonlinear_arith) requires bi > 0, qi == x / bi;
-                    assert(2 * qi * bi <= 2 * n + bi && 2 * n + bi < 2 * (qi + 1) * bi) by(nonlinear_arith)
-                        requires x == bi * qi + x % bi, 0 <= x % bi < bi, x == n + bi / 2, bi > 0;
-                    assert(representable(n, bi) ==> qi < 0x80000000) by(nonlinear_arith)
-                        requires 2 * qi * bi <= 2 * n + bi, bi > 0;
-                    assert(qi >= 0) by(nonlinear_arith) requires 2 * n + bi < 2 * (qi + 1) * bi, n >= 0, bi > 0;
-                    // corollaries
-                    assert(a as int <= bi ==> qi <= 65536 && representable(n, bi)) by(nonlinear_arith)
-                        requires 2 * qi * bi <= 2 * n + bi, n == a as int * 65536, bi > 0, a >= 0;
-                    assert(a as int == bi ==> qi == 65536) by(nonlinear_arith)
-                        requires 2 * qi * bi <= 2 * n + bi, 2 * n + bi < 2 * (qi + 1) * bi, n == a as int * 65536, bi > 0;
-                    assert(a == 0 ==> qi == 0) by(nonlinear_arith)
-                        requires 2 * qi * bi <= 2 * n + bi, 2 * n + bi < 2 * (qi + 1) * bi, n == a as int * 65536, bi > 0, qi >= 0;
+                    lemma_round_div(a as int * 65536, b as int);
+                    lemma_div_corollaries(a as int, b as int);
                 }
 //@end
+}
+impl Fixed {
 //@extract source=fixed container="mod fixed||impl Fixed" fn=mul_div ret=r
 //@spec
         // no precondition: total and overflow-free for every triple of operands
@@ -101,26 +134,23 @@ impl Fixed {
 //@at before "su.wrapping_mul(au)"
             proof {
                 let n = su as int * au as int;
-                let bi = bu as int;
                 assert(0 <= n <= 0x4000_0000_0000_0000) by(nonlinear_arith)
                     requires n == su as int * au as int, 0 <= su as int <= 0x8000_0000, 0 <= au as int <= 0x8000_0000;
                 assert(bu >> 1 == bu / 2) by(bit_vector);
-                let x = n + bi / 2;
-                let qi = x / bi;
-                assert(x == bi * qi + x % bi && 0 <= x % bi < bi) by(nonlinear_arith) requires bi > 0, qi == x / bi;
-                assert(2 * qi * bi <= 2 * n + bi && 2 * n + bi < 2 * (qi + 1) * bi) by(nonlinear_arith)
-                    requires x == bi * qi + x % bi, 0 <= x % bi < bi, x == n + bi / 2, bi > 0;
-                assert(representable(n, bi) ==> qi < 0x80000000) by(nonlinear_arith)
-                    requires 2 * qi * bi <= 2 * n + bi, bi > 0;
-                assert(qi >= 0) by(nonlinear_arith) requires 2 * n + bi < 2 * (qi + 1) * bi, n >= 0, bi > 0;
+                lemma_round_div(n, bu as int);
             }
 //@end
 }
 
 // same macro body instantiated for F26Dot6 (FT_DivFix / FT_MulDiv semantics: the factor is 2^16)
-impl F26Dot6 {
+impl vstd::std_specs::ops::DivSpecImpl<F26Dot6> for F26Dot6 {
+    open spec fn obeys_div_spec() -> bool { false }
+    open spec fn div_req(self, rhs: F26Dot6) -> bool { true } // no precondition
+    uninterp spec fn div_spec(self, rhs: F26Dot6) -> F26Dot6;
+}
+impl core::ops::Div for F26Dot6 {
+    type Output = Self;
 //@extract source=fixed container="mod fixed||impl Div for F26Dot6" fn=div ret=r
-//@rewrite "Self::Output" => "Self"
 //@spec
         // no precondition: total and overflow-free for every pair of operands (incl. i32::MIN)
         ensures
@@ -151,25 +181,12 @@ impl F26Dot6 {
                 proof {
                     assert(a << 16 == a * 65536) by(bit_vector) requires a <= 0x80000000u64;
                     assert(b >> 1 == b / 2) by(bit_vector);
-                    let n = a as int * 65536;
-                    let bi = b as int;
-                    let x = n + bi / 2;
-                    let qi = x / bi;
-                    assert(x == bi * qi + x % bi && 0 <= x % bi < bi) by(nonlinear_arith) requires bi > 0, qi == x / bi;
-                    assert(2 * qi * bi <= 2 * n + bi && 2 * n + bi < 2 * (qi + 1) * bi) by(nonlinear_arith)
-                        requires x == bi * qi + x % bi, 0 <= x % bi < bi, x == n + bi / 2, bi > 0;
-                    assert(representable(n, bi) ==> qi < 0x80000000) by(nonlinear_arith)
-                        requires 2 * qi * bi <= 2 * n + bi, bi > 0;
-                    assert(qi >= 0) by(nonlinear_arith) requires 2 * n + bi < 2 * (qi + 1) * bi, n >= 0, bi > 0;
-                    // corollaries
-                    assert(a as int <= bi ==> qi <= 65536 && representable(n, bi)) by(nonlinear_arith)
-                        requires 2 * qi * bi <= 2 * n + bi, n == a as int * 65536, bi > 0, a >= 0;
-                    assert(a as int == bi ==> qi == 65536) by(nonlinear_arith)
-                        requires 2 * qi * bi <= 2 * n + bi, 2 * n + bi < 2 * (qi + 1) * bi, n == a as int * 65536, bi > 0;
-                    assert(a == 0 ==> qi == 0) by(nonlinear_arith)
-                        requires 2 * qi * bi <= 2 * n + bi, 2 * n + bi < 2 * (qi + 1) * bi, n == a as int * 65536, bi > 0, qi >= 0;
+                    lemma_round_div(a as int * 65536, b as int);
+                    lemma_div_corollaries(a as int, b as int);
                 }
 //@end
+}
+impl F26Dot6 {
 //@extract source=fixed container="mod fixed||impl F26Dot6" fn=mul_div ret=r
 //@spec
         // no precondition: total and overflow-free for every triple of operands
@@ -195,19 +212,88 @@ impl F26Dot6 {
 //@at before "su.wrapping_mul(au)"
             proof {
                 let n = su as int * au as int;
-                let bi = bu as int;
                 assert(0 <= n <= 0x4000_0000_0000_0000) by(nonlinear_arith)
                     requires n == su as int * au as int, 0 <= su as int <= 0x8000_0000, 0 <= au as int <= 0x8000_0000;
                 assert(bu >> 1 == bu / 2) by(bit_vector);
-                let x = n + bi / 2;
-                let qi = x / bi;
-                assert(x == bi * qi + x % bi && 0 <= x % bi < bi) by(nonlinear_arith) requires bi > 0, qi == x / bi;
-                assert(2 * qi * bi <= 2 * n + bi && 2 * n + bi < 2 * (qi + 1) * bi) by(nonlinear_arith)
-                    requires x == bi * qi + x % bi, 0 <= x % bi < bi, x == n + bi / 2, bi > 0;
-                assert(representable(n, bi) ==> qi < 0x80000000) by(nonlinear_arith)
-                    requires 2 * qi * bi <= 2 * n + bi, bi > 0;
-                assert(qi >= 0) by(nonlinear_arith) requires 2 * n + bi < 2 * (qi + 1) * bi, n >= 0, bi > 0;
+                lemma_round_div(n, bu as int);
             }
+//@end
+}
+
+// ---------------------------------------------------------------------------------------------
+// C11: VariationAxisRecord::normalize on top of the contracts above (real text of read-fonts/src/tables/fvar.rs).
+// Needs the derived ordering of Fixed (rustc's expansion of the derive), saturating_sub and Neg.
+pub assume_specification[ i32::saturating_sub ](a: i32, b: i32) -> (r: i32)
+    ensures r as int == (if a - b > 0x7FFF_FFFF { 0x7FFF_FFFFint } else if a - b < -0x8000_0000 { -0x8000_0000int } else { a - b });
+
+impl ::core::cmp::PartialEq for Fixed {
+//@extract source=fixed container="mod fixed||impl ::core::cmp::PartialEq for Fixed" fn=eq
+//@end
+}
+impl ::core::cmp::Eq for Fixed {}
+impl ::core::cmp::PartialOrd for Fixed {
+//@extract source=fixed container="mod fixed||impl ::core::cmp::PartialOrd for Fixed" fn=partial_cmp
+//@end
+}
+impl ::core::cmp::Ord for Fixed {
+//@extract source=fixed container="mod fixed||impl ::core::cmp::Ord for Fixed" fn=cmp
+//@end
+}
+// ordering of Fixed == ordering of the raw bits (these SpecImpls are checked against the derived bodies above)
+impl PartialEqSpecImpl for Fixed {
+    open spec fn obeys_eq_spec() -> bool { true }
+    open spec fn eq_spec(&self, other: &Fixed) -> bool { self.0 == other.0 }
+}
+impl PartialOrdSpecImpl for Fixed {
+    open spec fn obeys_partial_cmp_spec() -> bool { true }
+    open spec fn partial_cmp_spec(&self, other: &Fixed) -> Option<Ordering> { if self.0 < other.0 { Some(Ordering::Less) } else if self.0 == other.0 { Some(Ordering::Equal) } else { Some(Ordering::Greater) } }
+}
+impl OrdSpecImpl for Fixed {
+    open spec fn obeys_cmp_spec() -> bool { true }
+    open spec fn cmp_spec(&self, other: &Fixed) -> Ordering { if self.0 < other.0 { Ordering::Less } else if self.0 == other.0 { Ordering::Equal } else { Ordering::Greater } }
+}
+impl vstd::std_specs::ops::NegSpecImpl for Fixed {
+    open spec fn obeys_neg_spec() -> bool { false }
+    open spec fn neg_req(self) -> bool { self.0 != i32::MIN } // Neg is a plain unary minus on the raw value
+    uninterp spec fn neg_spec(self) -> Fixed;
+}
+impl core::ops::Neg for Fixed {
+    type Output = Self;
+//@extract source=fixed container="mod fixed||impl Neg for Fixed" fn=neg ret=r
+//@spec
+        ensures r.0 == -self.0
+//@end
+}
+impl Fixed {
+    pub const ZERO: Self = Self(0);
+    pub const ONE: Self = Self(1 << 16);
+//@extract source=fixed container="mod fixed||impl Fixed" fn=saturating_sub ret=r
+//@spec
+        ensures r.0 as int == (if self.0 - other.0 > 0x7FFF_FFFF { 0x7FFF_FFFFint } else if self.0 - other.0 < -0x8000_0000 { -0x8000_0000int } else { self.0 - other.0 })
+//@end
+}
+
+// the three fixed-point fields of an fvar axis record (the generated big-endian getters are replaced by plain fields)
+//@require source=fvar seq="impl VariationAxisRecord {"
+pub struct VariationAxisRecord { pub min: Fixed, pub def: Fixed, pub max: Fixed }
+impl VariationAxisRecord {
+    fn min_value(&self) -> (r: Fixed) ensures r == self.min { self.min }
+    fn default_value(&self) -> (r: Fixed) ensures r == self.def { self.def }
+    fn max_value(&self) -> (r: Fixed) ensures r == self.max { self.max }
+
+//@extract source=fvar container="impl VariationAxisRecord" fn=normalize ret=r
+//@spec
+        // total for EVERY record (also inconsistent ones) and every user value
+        ensures
+            -65536 <= r.0 <= 65536,
+            (self.min.0 <= self.def.0 <= self.max.0 && value.0 == self.def.0) ==> r.0 == 0,
+            (self.min.0 < self.def.0 <= self.max.0 && value.0 <= self.min.0) ==> r.0 == -65536,
+            (self.min.0 <= self.def.0 < self.max.0 && value.0 >= self.max.0) ==> r.0 == 65536,
+            // sign: below default is never positive, above default never negative
+            (self.min.0 <= self.def.0 <= self.max.0 && value.0 <= self.def.0) ==> r.0 <= 0,
+            (self.min.0 <= self.def.0 <= self.max.0 && value.0 >= self.def.0) ==> r.0 >= 0,
+//@at body-start
+        proof { assert(1i32 << 16 == 65536i32) by(bit_vector); }
 //@end
 }
 
